@@ -84,6 +84,8 @@ lines, broken, kinds_seen = [], [], {}
 ndecl = 0
 mapped = 0
 impl_owner = {}
+implied_mismatch, n_schema_implied = [], 0
+ctype_of_class = {}
 for cls in classes:
     key = X.class_key(cls)
     try:
@@ -119,7 +121,61 @@ for cls in classes:
     if ct is not None:
         mapped += 1
         order = [nid(e.qname) for e in ct.elems]
+        ctype_of_class[key] = ct
     lines.append(f'  (* {key} *) mkCls {cids[key]} [{"; ".join(ps)}] [{"; ".join(str(o) for o in order)}]')
+
+# classes bound to an ANONYMOUS schema type (msg report parts, ...): the type of the particle they are the value of
+for _round in range(3):
+    for cls in classes:
+        key = X.class_key(cls)
+        ct = ctype_of_class.get(key)
+        if ct is None:
+            continue
+        for pname, p in X.class_props(cls):
+            vc, qn = getattr(p, 'value_class', None), getattr(p, '_sub_element_name', None)
+            if not (isinstance(vc, type) and issubclass(vc, X.BASES)) or qn is None or X.class_key(vc) in ctype_of_class:
+                continue
+            e = next((e for e in ct.elems if e.qname == qn.text), None)
+            t = idx.elem_type(e) if e is not None else None
+            if isinstance(t, D.CType):
+                try:
+                    X.class_props(vc)
+                except X.BrokenClass:
+                    continue
+                ctype_of_class[X.class_key(vc)] = t
+
+# the value an ABSENT member stands for, as the schema documents it (default= / "The implied value SHALL be ..."),
+# against the declaration: it must be an implied_py_value (not a default_py_value, not nothing) with that text
+for cls in classes:
+    key = X.class_key(cls)
+    ct = ctype_of_class.get(key)
+    if ct is None:
+        continue
+    props = X.class_props(cls)
+    if True:
+        for pname, p in props:
+            if isinstance(p, xs._AttributeBase):  # noqa: SLF001
+                an = p._attribute_name  # noqa: SLF001
+                an = an.text if isinstance(an, etree.QName) else an
+                doc, slot = ct.adefault.get(an), nid('@' + an)
+            else:
+                qn = p._sub_element_name  # noqa: SLF001
+                if qn is None:
+                    continue
+                doc = next((e.implied for e in ct.elems if e.qname == qn.text), None)
+                slot = nid(qn.text)
+            im = p._implied_py_value  # noqa: SLF001
+            if doc is None and im is None:
+                continue
+            n_schema_implied += 1
+            try:
+                declared = None if im is None else p._converter.to_xml(im)  # noqa: SLF001
+            except Exception as ex:  # noqa: BLE001
+                declared = f'<{type(ex).__name__}>'
+            if declared != doc:
+                dflt = p._default_py_value  # noqa: SLF001
+                implied_mismatch.append((cids[key], slot, f'{key}.{pname}: schema documents {doc!r}, declaration has '
+                                         f'implied_py_value={declared!r} default_py_value={dflt!r}'))
 
 # which base class implements the behaviour of each descriptor class (recorded so that a moved override shows up)
 impl_table = sorted({(tn, m, o) for (tn, m), o in impl_owner.items() if m in METHODS[:2]})
@@ -132,8 +188,14 @@ out = ['(* GENERATED on every run by harness/impl/gen_schema.py from the classes
        'Definition all_classes : list cls := [', ';\n'.join(lines), '].', '',
        '(* classes whose _props names a member that does not exist: cls() raises AttributeError *)',
        'Definition broken_classes : list N := [' + '; '.join(str(b[0]) for b in broken) + '].',
-       *[f'(* broken: {b[1]}: {b[2]} *)' for b in broken], '']
+       *[f'(* broken: {b[1]}: {b[2]} *)' for b in broken], '',
+       f'(* members for which the schema documents the value of an absent attribute / element (default= or "The implied',
+       f'   value SHALL be ..."): {n_schema_implied}; (class, slot) where the declaration does not carry exactly that value as its',
+       '   implied_py_value: *)',
+       'Definition implied_mismatches : list (N * N) := [' + '; '.join(f'({m[0]}, {m[1]})' for m in implied_mismatch) + '].',
+       *[f'(* mismatch: {m[2]} *)' for m in implied_mismatch], '']
 print(json.dumps({'rel': 'XmlStruct/Gen_Schema.v', 'text': '\n'.join(out) + '\n',
                   'n_classes': len(classes), 'n_props': ndecl, 'n_descriptor_classes': len(kinds_seen),
-                  'n_mapped_to_schema': mapped, 'broken': broken, 'class_ids': cids, 'names': names,
+                  'n_mapped_to_schema': mapped, 'broken': broken, 'n_schema_implied': n_schema_implied,
+                  'implied_mismatch': [m[2] for m in implied_mismatch], 'class_ids': cids, 'names': names,
                   'impl_table': impl_table}))
